@@ -224,6 +224,57 @@ func checkC18Expr(c c18ExprCase) *evid.Fail {
 		}
 	}
 	if len(occ) > 0 {
+		// the same collection object between evaluations of the parsed instance, its length kept: the missing
+		// variable is added and another one taken out (that one is missing now and must be reported), then everything
+		// is there (nothing may be reported missing) - names are resolved against the list as it is at the time
+		missing := occ[len(occ)/2]
+		other := ""
+		vc := variables.NewVariableCollection()
+		for _, o := range occ {
+			if !strings.EqualFold(o, missing) {
+				if vc.FindByName(o) == nil {
+					vc.Add(variables.NewVariable(o, variants.VariantFromInteger(1)))
+				}
+				if other == "" {
+					other = o
+				}
+			}
+		}
+		fc := functions.NewFunctionCollection()
+		for _, f := range funcs {
+			fc.Add(tupFunction(f))
+		}
+		var e1, e2, e3 error
+		var v2 *variants.Variant
+		if g := guard(func() {
+			_, e1 = calc2.EvaluateUsingVariablesAndFunctions(vc, fc)
+			if other != "" {
+				vc.RemoveByName(other)
+				vc.Add(variables.NewVariable(missing, variants.VariantFromInteger(1)))
+				v2, e2 = calc2.EvaluateUsingVariablesAndFunctions(vc, fc)
+				vc.Add(variables.NewVariable(other, variants.VariantFromInteger(1)))
+			} else {
+				vc.Add(variables.NewVariable(missing, variants.VariantFromInteger(1)))
+			}
+			_, e3 = calc2.EvaluateUsingVariablesAndFunctions(vc, fc)
+		}); g != nil {
+			g.Msg = fmt.Sprintf("%q with variables added to / removed from the same collection between evaluations: %s", c.Text, g.Msg)
+			return g
+		}
+		_ = e1
+		if other != "" {
+			if e2 == nil {
+				return evid.F("missing-variable:no-error:collection-edited", "%q evaluated to %s after %q was removed from the collection (and %q added) between two evaluations", c.Text, fromVariant(v2), other, missing)
+			}
+			if strings.Contains(e2.Error(), "not found") && !strings.Contains(strings.ToUpper(e2.Error()), strings.ToUpper(other)) {
+				return evid.F("missing-variable:error-does-not-name-it:collection-edited", "%q: after %q was removed and %q added, the error is %q", c.Text, other, missing, e2.Error())
+			}
+		}
+		if e3 != nil && strings.Contains(e3.Error(), "not found") {
+			return evid.F("present-variable-reported-missing:collection-edited", "%q: every variable is in the collection now, yet: %v", c.Text, e3)
+		}
+	}
+	if len(occ) > 0 {
 		// every variable present but holding Null: present is present, whatever the value
 		vc := variables.NewVariableCollection()
 		for _, o := range occ {
